@@ -239,7 +239,7 @@ def _run(eng, world, contracts, qual, res, timeout_ms, concretise, keep_smt, onl
         # frame: writes to pre-existing objects only on fields the contract lists
         mods = con.modifies(cx) if callable(con.modifies) else con.modifies
         seen = set()
-        for (f, r, pcw) in s.ghost.get('$writes', []):
+        for (f, r, pcw, _wv) in s.ghost.get('$writes', []):
             if f in mods:
                 continue
             g = z3.simplify(r >= ap0)
@@ -251,12 +251,32 @@ def _run(eng, world, contracts, qual, res, timeout_ms, concretise, keep_smt, onl
             seen.add(key)
             eng.obls.append(Obligation('%s/frame:%s[path %d]' % (qual, f, npaths), pcw, r >= ap0, 'frame',
                                        {'path': npaths, 'field': f}))
+        if con.publishes:
+            # single publication (sufficient sequential condition for C20): the shared store is replaced by one
+            # assignment of a finished object; neither the object that was published at entry nor the newly
+            # published one is written in place
+            pobj, pfield, guard = con.publishes(cx)
+            old_store = cx.st0.H(pfield)[V.ref(pobj)] if False else z3.Select(cx.st0.H(pfield), V.ref(pobj))
+            ws = s.ghost.get('$writes', [])
+            published = [V.ref(old_store)]
+            for (f, r, pcw, wv) in ws:
+                if f == pfield and z3.eq(z3.simplify(r), z3.simplify(V.ref(pobj))):
+                    published.append(V.ref(wv))
+                    continue
+                if f == pfield:
+                    continue
+                for pi, pr_ in enumerate(published):
+                    g = z3.simplify(r != pr_)
+                    if z3.is_true(g):
+                        continue
+                    eng.obls.append(Obligation('%s/publication:no-in-place-write-to-the-shared-%s[path %d]' % (qual, pfield, npaths),
+                                               pcw, z3.Or(z3.Not(guard), r != pr_), 'frame', {'path': npaths}))
         if con.preserves:
             # the contract promises callers that shape facts survive the call: every write to a pre-existing
             # object must then be outside the footprint of those facts
             from specs.wf import fp as _fp
             seenw = set()
-            for (f, r, pcw) in s.ghost.get('$writes', []):
+            for (f, r, pcw, _wv) in s.ghost.get('$writes', []):
                 rs = z3.simplify(r)
                 if eng._is_alloc_term(rs) or rs.get_id() in seenw:
                     continue
